@@ -287,3 +287,37 @@ Definition affected_level_foreign (g : grid) (tpts : list (Z * Z)) (sx sy : Z) :
   | None => None
   | Some b => match affected_level g b sx sy with Some l => Some (b, l) | None => None end
   end.
+
+(* ---- MetaGrid.get_affected_level_tiles (the rectangle -> meta tiles function of the seeding / cleanup walker);
+   msx, msy = MetaGrid.meta_size *)
+(* MetaGrid._meta_size *)
+Definition meta_size_at (g : grid) (msx msy l : Z) : Z * Z :=
+  let '(nx, ny) := grid_size g l in (Z.min msx nx, Z.min msy ny).
+(* list(range(a, b+1, s)) for s > 0 *)
+Definition zrange_step (a b s : Z) : list Z := map (fun k => a + s * Z.of_nat k) (seq 0 (Z.to_nat ((b - a) / s + 1))).
+(* list(range(b, a-1, -s)) for s > 0 *)
+Definition zrange_step_down (a b s : Z) : list Z := map (fun k => b - s * Z.of_nat k) (seq 0 (Z.to_nat ((b - a) / s + 1))).
+(* 1/10 pixel inset of one axis; a range thinner than 2/10 pixel is replaced by its centre
+   ((lo + hi) / 2.0 is exact when lo + hi is even: the correspondence uses such values) *)
+Definition thin_range (lo hi delta : Z) : Z * Z :=
+  if hi - delta <? lo + delta then ((lo + hi) / 2, (lo + hi) / 2) else (lo + delta, hi - delta).
+Definition meta_affected_level_tiles (g : grid) (msx msy : Z) (b : bbox) (l : Z) : affected :=
+  let '(bx0, by0, bx1, by1) := b in
+  let delta := res_at g l / 10 in
+  let '(minx, maxx) := thin_range bx0 bx1 delta in
+  let '(miny, maxy) := thin_range by0 by1 delta in
+  let '(tx0, ty0) := tile g minx miny l in
+  let '(tx1, ty1) := tile g maxx maxy l in
+  let '(mx, my) := meta_size_at g msx msy l in
+  let x0 := tx0 / mx * mx in let x1 := tx1 / mx * mx in
+  let y0 := ty0 / my * my in let y1 := ty1 / my * my in
+  let xs := zrange_step x0 x1 mx in
+  let ys := if ul g then zrange_step y1 y0 my else zrange_step_down y0 y1 my in
+  match xs, ys with
+  | [], _ | _, [] => InvalidBBOX
+  | x_first :: _, y_first :: _ =>
+    let x_last := last xs x_first in
+    let y_last := last ys y_first in
+    let ab := merge_bbox (tile_bbox g x_first y_last l) (tile_bbox g (x_last + mx - 1) (y_first + my - 1) l) in
+    Affected ab (Z.of_nat (length xs)) (Z.of_nat (length ys)) (create_tile_list xs ys l (grid_size g l))
+  end.
